@@ -75,6 +75,18 @@ PAYLOAD_FORMS = [
     ("ref_clone", "p8: Pay", "", "&p8.clone()", {"k": "named", "n": "Pay"}),
     ("typed_let_qualified", "", "let tlq: crate::Pay = make();", "tlq", {"k": "named", "n": "Pay"}),
     ("typed_param_tuple", "tp: (u8, Pay)", "", "tp", {"k": "tup", "ts": [{"k": "leaf", "c": "num"}, {"k": "named", "n": "Pay"}]}),
+    # an annotated let: the annotation is the type, whatever the initialiser looks like (a constructor of another owner,
+    # a trait function, a conversion, a literal of another type's variant)
+    ("annot_vec_new", "", "let mut av: Vec<Pay> = Vec::new();", "&av", {"k": "vec", "a": {"k": "named", "n": "Pay"}}),
+    ("annot_default", "", "let ad: Pay = Default::default();", "ad", {"k": "named", "n": "Pay"}),
+    ("annot_map_new", "", "let am: HashMap<String, Pay> = HashMap::new();", "am", {"k": "hmap", "a": {"k": "leaf", "c": "str"}, "b": {"k": "named", "n": "Pay"}}),
+    ("annot_assoc", "", "let aa: Pay = Pay::make();", "aa", {"k": "named", "n": "Pay"}),
+    ("annot_none", "", "let an: Option<Pay> = None;", "an", {"k": "opt", "a": {"k": "named", "n": "Pay"}}),
+    ("annot_module_fn", "", "let af: Pay = snapshot::current();", "af", {"k": "named", "n": "Pay"}),
+    ("annot_into", "p11: Pay", "let ai: Pay = p11.into();", "ai", {"k": "named", "n": "Pay"}),
+    ("annot_num_from", "", "let au: u64 = u64::from(3u8);", "au", {"k": "leaf", "c": "num"}),
+    ("annot_string_new", "", "let a_s: String = String::new();", "a_s", {"k": "leaf", "c": "str"}),
+    ("annot_struct_lit_other", "", "let ab: Vec<Pay> = vec![Pay { v: 1 }];", "ab.clone()", {"k": "vec", "a": {"k": "named", "n": "Pay"}}),
 ]
 
 # the same documented forms where the evident type is, or contains, a name the configuration maps (C05 through the
@@ -96,6 +108,18 @@ MAPPED_PAYLOAD_FORMS = [
     ("m_clone", "s10: Stamp", "", "s10.clone()", M_STAMP),
     ("m_unmapped", "s11: Vec<Pay>", "", "s11", {"k": "vec", "a": {"k": "named", "n": "Pay"}}),
 ]
+
+
+def payload_project(forms):
+    """one emitting function per payload form -> (rust source, abstract emits)"""
+    psrc = PC.EMIT_PRELUDE + "use tauri::Emitter;\n#[derive(Serialize, Deserialize, Clone)]\npub struct Pay {\n    pub v: i32,\n}\nimpl Pay {\n    pub fn make() -> Pay { Pay { v: 0 } }\n    pub fn summary(&self) -> String { String::new() }\n}\nmod snapshot {\n    pub fn current() -> super::Pay { super::Pay { v: 1 } }\n}\nfn make() -> Pay { Pay { v: 0 } }\n"
+    pemits = []
+    for j, (pid, params, pre, expr, exp) in enumerate(forms):
+        psrc += "pub fn pay_%s(app: tauri::AppHandle%s) {\n    %s\n    app.emit(\"pay-%s\", %s).ok();\n}\n" % (
+            pid, (", " + params) if params else "", pre, pid.replace("_", "-"), expr)
+        pemits.append({"name": "pay-" + pid.replace("_", "-"), "receiver": "app", "placed": "ok_recv", "frames": [], "lit": True})
+    psrc += "#[tauri::command]\npub fn keep_pay(p: Pay) {}\n"
+    return psrc, pemits
 
 
 def listeners_event(b, texts, emits, case):
@@ -153,13 +177,7 @@ def run(tier, seed):
     projects.append(("repeat", src, emits))
     projects.append(("noevents", PC.EMIT_PRELUDE, []))
     # (5) payload forms
-    psrc = PC.EMIT_PRELUDE + "use tauri::Emitter;\n#[derive(Serialize, Deserialize, Clone)]\npub struct Pay {\n    pub v: i32,\n}\nimpl Pay {\n    pub fn make() -> Pay { Pay { v: 0 } }\n    pub fn summary(&self) -> String { String::new() }\n}\nmod snapshot {\n    pub fn current() -> super::Pay { super::Pay { v: 1 } }\n}\nfn make() -> Pay { Pay { v: 0 } }\n"
-    pemits = []
-    for j, (pid, params, pre, expr, exp) in enumerate(PAYLOAD_FORMS):
-        psrc += "pub fn pay_%s(app: tauri::AppHandle%s) {\n    %s\n    app.emit(\"pay-%s\", %s).ok();\n}\n" % (
-            pid, (", " + params) if params else "", pre, pid.replace("_", "-"), expr)
-        pemits.append({"name": "pay-" + pid.replace("_", "-"), "receiver": "app", "placed": "ok_recv", "frames": [], "lit": True})
-    psrc += "#[tauri::command]\npub fn keep_pay(p: Pay) {}\n"
+    psrc, pemits = payload_project(PAYLOAD_FORMS)
     projects.append(("payloads", psrc, pemits))
     # (6) the same with configured type mappings
     msrc = psrc + "#[derive(Serialize, Deserialize, Clone)]\npub struct Stamp {\n    pub v: i64,\n}\n#[derive(Serialize, Deserialize, Clone)]\npub struct Label {\n    pub v: String,\n}\nfn stamp() -> Stamp { Stamp { v: 0 } }\n"
